@@ -255,6 +255,9 @@ def _sorted_array(init):
     return new
 
 
+PRIVATE_VIS = ("", "pub(crate)", "pub(super)", "pub(self)", "pub(in crate)")
+
+
 def area_nf(ast, crate, mods, exclude_names=(), skip_types=(), known_keys=None, only_names=()):
     """-> {key: {'kind': 'paths'|'tree', ...}} JSON-able.
     known_keys: function keys of the reviewed reference.  A private, non-trait function of the area that is not among
@@ -275,8 +278,9 @@ def area_nf(ast, crate, mods, exclude_names=(), skip_types=(), known_keys=None, 
             if it["k"] == "Fn":
                 counts[it["name"]] = counts.get(it["name"], 0) + 1
         for it in select(ast, crate, mods, exclude_names):
-            if fn_key(it) not in known_keys and (it.get("vis") or "") == "" and not it.get("trait") and counts.get(it["name"]) == 1 and len(it["name"]) > 3:
+            if fn_key(it) not in known_keys and (it.get("vis") or "") in PRIVATE_VIS and not it.get("trait") and counts.get(it["name"]) == 1 and len(it["name"]) > 3:
                 new_private[it["name"]] = it
+    _render.INLINE = {nm: x for nm, x in new_private.items() if x.get("body") is not None and not [p for p in x["sig"]["params"] if p.get("name") != "self"]}
     for it in select_consts(ast, crate, mods):
         key = "const %s::%s" % (it["mod"], it["name"])
         if key in res or it["name"] in consts:
@@ -311,14 +315,92 @@ def area_nf(ast, crate, mods, exclude_names=(), skip_types=(), known_keys=None, 
             res[key] = {"kind": "paths", "cells": mc.to_json({key: r[1]})[key]}
         else:
             res[key] = {"kind": "tree", "text": r[1], "why": r[2]}
+        if (it.get("vis") or "") in PRIVATE_VIS and not it.get("trait"):
+            res[key]["private"] = True
     if new_private:
         res["_inlined_new"] = {"kind": "note", "names": sorted(fn_key(x) for x in new_private.values())}
+    _render.INLINE = {}
     return res
 
 
 def self_ty_of_key(key):
     m = re.search(r"(?:^|::)([A-Z][A-Za-z0-9_]*)(?:<[^\[]*?>)?(?:\[[^\]]*\])?::[A-Za-z_0-9#]+$", key)
     return m.group(1) if m else ""
+
+
+def expand_calls(cells, name, helper_cells, limit=4000):
+    """replace every call action of the method / function `name` in `cells` by the paths of its normal form `helper_cells`
+    (parameters p1.. substituted by the argument texts, the call's value by the path's result)"""
+    forms = ("self." + name, "call " + name, "call Self::" + name)
+    work = list(cells)
+    out = []
+    rounds = 0
+    while work:
+        pc = work.pop()
+        rounds += 1
+        if rounds > limit:
+            return None
+        idxs = [i for i, (a, _) in enumerate(pc["actions"]) if a in forms]
+        if not idxs:
+            out.append(pc)
+            continue
+        i = idxs[0]
+        a, args = pc["actions"][i]
+        args = [str(x) for x in args]
+
+        def sub(t):
+            return re.sub(r"\bp(\d+)\b", lambda m: args[int(m.group(1)) - 1] if int(m.group(1)) <= len(args) else m.group(0), str(t))
+
+        call_txts = ["self.%s(%s)" % (name, ",".join(args)), "%s(%s)" % (name, ",".join(args)), "Self::%s()" % name]
+        for h in helper_cells:
+            if h.get("acq"):
+                return None
+            g = dict(pc["guards"])
+            clash = False
+            for k, v in h["guards"].items():
+                k2 = sub(k)
+                if k2 in g and g[k2] != v:
+                    clash = True
+                    break
+                g[k2] = v
+            if clash:
+                continue
+            retv = sub(h["ret"])
+
+            def val(t):
+                t = str(t)
+                for ct in call_txts:
+                    if ct in t:
+                        t = t.replace(ct, retv)
+                return t
+
+            acts = tuple(pc["actions"][:i]) + tuple((sub(an), tuple(sub(x) for x in aa)) for an, aa in h["actions"]) + tuple((an, tuple(val(x) for x in aa)) for an, aa in pc["actions"][i + 1:])
+            g2 = {}
+            for k, v in g.items():
+                k2 = val(k)
+                if k2 in ("true", "false"):
+                    if (k2 == "true") != v:
+                        clash = True
+                    continue
+                if k2 in g2 and g2[k2] != v:
+                    clash = True
+                g2[k2] = v
+            if clash:
+                continue
+            work.append(dict(pc, guards=g2, actions=acts, ret=val(pc["ret"]) if isinstance(pc["ret"], str) else pc["ret"]))
+    return out
+
+
+def _helper_key(table, fkey, name):
+    base = fkey.rsplit("::", 1)[0]
+    cands = [base + "::" + name, re.sub(r"\[[^\]]*\]$", "", base) + "::" + name]
+    for c in cands:
+        if c in table and table[c].get("kind") == "paths":
+            return c
+    # the same self type in another module of the area (impl blocks spread over files)
+    ty = re.sub(r"\[[^\]]*\]$", "", base).rsplit("::", 1)[-1]
+    hits = [k for k in table if k.endswith("::" + ty + "::" + name) and isinstance(table[k], dict) and table[k].get("kind") == "paths"]
+    return hits[0] if len(hits) == 1 else None
 
 
 def compare_area(ref, new, report_ok, report_bad, summ=None):
@@ -330,6 +412,11 @@ def compare_area(ref, new, report_ok, report_bad, summ=None):
         if key == "_inlined_new":
             continue
         if key not in new:
+            if ref[key].get("private") and not key.startswith("const "):
+                # a private function that is gone can only matter through its former callers, and those are compared (with its
+                # reviewed normal form written out at the call sites)
+                report_ok(key, "private function no longer exists; its callers are compared with its body written out")
+                continue
             report_bad(key, "function-missing", "reviewed function no longer exists (renamed or removed): re-review needed")
             continue
         if key not in ref:
@@ -360,6 +447,38 @@ def compare_area(ref, new, report_ok, report_bad, summ=None):
                     pc["actions"] = effects.canonical_order(pc["actions"], st, summ)
         n += mc.compare_pairwise(ca, cb, lambda k, d: diffs.append((k, d)))
         if diffs:
+            # a call of a small helper written out at the call site (or the reverse): compare again with the helper's own
+            # normal form spliced into the side that still calls it
+            def call_names(cells):
+                return {a.split(" ", 1)[-1].replace("Self::", "").replace("self.", "") for pc in cells for a, _ in pc["actions"] if re.fullmatch(r"(self\.|call (Self::)?)[a-z_][a-z_0-9]*", a)}
+            ra, rb = call_names(ca), call_names(cb)
+            done = False
+            for hn in sorted(ra | rb):
+                sides = []
+                for cur, table in ((ca, ref), (cb, new)):
+                    hk = _helper_key(table, key, hn)
+                    if hk is None or hk == key:
+                        sides.append(cur if not any(a in ("self." + hn, "call " + hn, "call Self::" + hn) for pc in cur for a, _ in pc["actions"]) else None)
+                        continue
+                    hc = mc.from_json({hk: table[hk]["cells"]})[hk]
+                    if len(hc) > 6 or any(a.startswith("loop-") or a in ("self." + hn, "call " + hn) for pc in hc for a, _ in pc["actions"]):
+                        sides.append(None)  # only small, loop-free, non-recursive helpers are written out
+                        continue
+                    ex = expand_calls(cur, hn, hc)
+                    if ex is not None and summ is not None:
+                        for pc in ex:
+                            pc["actions"] = effects.canonical_order(pc["actions"], self_ty_of_key(key), summ)
+                    sides.append(ex)
+                if sides[0] is None or sides[1] is None:
+                    continue
+                d2 = []
+                mc.compare_pairwise(sides[0], sides[1], lambda k, d: d2.append((k, d)))
+                if not d2:
+                    report_ok(key, "paths equal the reference after writing out the calls of %s" % hn)
+                    done = True
+                    break
+            if done:
+                continue
             report_bad(key, diffs[0][0], diffs[0][1][:700])
         else:
             report_ok(key, "%d paths equal the reference pointwise" % len(b["cells"]))
